@@ -9,7 +9,7 @@ from props.c13 import R, LOGDIR, BIG, rec_bytes, _collect, decode_read
 HEAD = '/state/head.json'
 
 
-def scenario_factory(nops, modes, planted=None, max_restarts=2, ops=None):
+def scenario_factory(nops, modes, planted=None, max_restarts=2, ops=None, prune=False):
     OPS = ops or ['write', 'read', 'save', 'save_crash', 'crash_restart', 'close_restart']
     def scenario(e):
         mode = modes[e.choice('mode', len(modes))] if len(modes) > 1 else modes[0]
@@ -21,7 +21,8 @@ def scenario_factory(nops, modes, planted=None, max_restarts=2, ops=None):
         e.token_hook = lambda x, spec: fs.mk_token(x) if spec == '016' else '<sym>'
         fakefs.install(R, fs, LOGDIR)
         fsz = e.fresh_int('file_size', 1)
-        w = R.RollLog(LOGDIR, mode, file_size=fsz, total_size=10 ** 9, utc=True)
+        tsz = e.fresh_int('total_size', 1) if prune else 10 ** 9
+        w = R.RollLog(LOGDIR, mode, file_size=fsz, total_size=tsz, utc=True)
         def new_reader():
             try:
                 return R.RollLog(LOGDIR, mode, utc=True, rdonly=True, head=HEAD)
@@ -32,6 +33,16 @@ def scenario_factory(nops, modes, planted=None, max_restarts=2, ops=None):
         nxt = 0                 # index of the next record this incarnation will deliver (model)
         saved = 0               # model: next-record index of the last successful save
         seen = set(); restarts = 0; first_after_restart = None; allowed_after_restart = None
+        def removed():
+            # records that retention pruned from the disk (content of every file the writer unlinked)
+            out = set()
+            for op in fs.oplog:
+                if op[0] == 'unlink':
+                    recs = _collect(op[2], sizes + [1] * 8, 0 if mode == 'bin' else 1)
+                    if recs: out.update(recs)
+            return out
+        def gone(a, b):
+            rm = removed(); return all(j in rm for j in range(a, b))
         def deliver(res):
             nonlocal nxt, first_after_restart
             if res is None: return
@@ -40,10 +51,10 @@ def scenario_factory(nops, modes, planted=None, max_restarts=2, ops=None):
             for k in recs:
                 if first_after_restart is None and allowed_after_restart is not None:
                     first_after_restart = k
-                    if k not in allowed_after_restart:
+                    if k not in allowed_after_restart and not (prune and any(a <= k and gone(a, k) for a in allowed_after_restart)):
                         e.fail('skip-or-rewind' if k > max(allowed_after_restart) else 'rewind-too-far',
                                f'after restart the first delivered record is {k}, saved positions allow {sorted(allowed_after_restart)}', {'kind': 'bad-restart-position'})
-                if k != nxt: e.fail('order', f'delivered record {k}, expected {nxt}', {'kind': 'order'})
+                if k != nxt and not (prune and nxt is not None and k > nxt and gone(nxt, k)): e.fail('order', f'delivered record {k}, expected {nxt}', {'kind': 'order'})
                 nxt = k + 1; seen.add(k)
         def restart(allowed):
             nonlocal rd, nxt, restarts, first_after_restart, allowed_after_restart
@@ -105,9 +116,9 @@ def scenario_factory(nops, modes, planted=None, max_restarts=2, ops=None):
                 recs = _collect(decode_read(res, mode, mode == 'bin'), sizes, 0 if mode == 'bin' else 1)
                 if recs: nxt = recs[0]
             deliver(res)
-        if allowed_after_restart is not None and first_after_restart is None and nwritten > min(allowed_after_restart):
+        if allowed_after_restart is not None and first_after_restart is None and nwritten > min(allowed_after_restart) and not (prune and gone(min(allowed_after_restart), nwritten)):
             e.fail('skip', f'after restart nothing was delivered although records {min(allowed_after_restart)}..{nwritten - 1} are on disk', {'kind': 'skip'})
-        missing = [k for k in range(nwritten) if k not in seen]
+        missing = [k for k in range(nwritten) if k not in seen and not (prune and k in removed())]
         if missing: e.fail('skip', f'records {missing} on disk were never delivered in any incarnation (seen {sorted(seen)})', {'kind': 'skip'})
     return scenario
 
@@ -122,6 +133,12 @@ def harnesses(tier):
                     bounds={'operations': 5, 'modes': 'txt' if q else 'txt, bin', 'op kinds': 'write read save save-with-crash(create/write/rename, torn tmp 0/7/14 bytes) crash-restart close-restart',
                             'restarts': '<=2', 'file_size': 'unbounded Int >= 1', 'timestamps': 'unbounded Int'},
                     functions=fn, stubs=stubs, assumptions=assume, budget_s=900)]
+    assume_p = [a for a in assume if 'no pruning' not in a] + ['retention pruning by the writer (total_size symbolic): a record in a pruned file is no longer "on disk"']
+    hs.append(Harness('c14.head_prune', scenario_factory(5 if q else 6, ['txt'], ops=['write', 'read', 'save', 'crash_restart'] if q else ['write', 'read', 'save', 'save_crash', 'crash_restart'], prune=True),
+                      twin=scenario_factory(4, ['txt'], planted=True, prune=True),
+                      bounds={'operations': 5 if q else 6, 'modes': 'txt', 'op kinds': 'write read save crash-restart' + ('' if q else ' save-with-crash'), 'restarts': '<=2',
+                              'file_size': 'unbounded Int >= 1', 'total_size': 'unbounded Int >= 1 (the writer prunes old files while the reader is up or down)'},
+                      functions=fn + ['rolllog.RollLog.write (roll-over, retention)'], stubs=stubs, assumptions=assume_p, budget_s=900))
     if not q:
         hs.append(Harness('c14.head_crash.6ops', scenario_factory(6, ['txt'], ops=['write', 'read', 'save_crash', 'crash_restart']),
                           bounds={'operations': 6, 'op kinds': 'write read save-with-crash crash-restart', 'restarts': '<=2'}, functions=fn, stubs=stubs, assumptions=assume, budget_s=900))
